@@ -49,6 +49,19 @@ def payload_value(p):
             "control": "tab\there\nnewline"}[p]
 
 
+def min_size(p):
+    """a lower bound of any sensible size measure of the detail: the characters of its text leaves"""
+    v = payload_value(p)
+
+    def leaves(x):
+        if isinstance(x, dict):
+            return sum(leaves(k) + leaves(y) for k, y in x.items())
+        if isinstance(x, (list, tuple)):
+            return sum(leaves(y) for y in x)
+        return len(x) if isinstance(x, str) else 1
+    return leaves(v)
+
+
 def make(cls_name, key, kwargs):
     cls = getattr(plugins, cls_name)
     if cls_name == "make_metadata":
@@ -124,16 +137,31 @@ def make_o2():
         if cls_name in ("make_metadata_key",):
             en.must_hold(dict(r) == full, "response-wellformed", case, detail="got %r" % (dict(r),))
             return
-        # which side of the limit is this path on?  (the real code has branched on `length > limit`)
-        over = bool(limit < length)
-        if over:
-            kn = KEYNAME[cls_name]
-            stub = {"type": full["type"], "max_detail_length_error": length}
-            if kn:
-                stub[kn] = full[kn]
-            en.must_hold(dict(r) == stub, "length-stub", case, detail="over-long response became %r, expected %r" % (dict(r), stub))
+        kn = KEYNAME[cls_name]
+        if isinstance(payload, int):
+            # plain ASCII details: the documented measure ("converts the response to a string and compares its length") is exact
+            # which side of the limit is this path on?  (the real code has branched on `length > limit`)
+            over = bool(limit < length)
+            if over:
+                stub = {"type": full["type"], "max_detail_length_error": length}
+                if kn:
+                    stub[kn] = full[kn]
+                en.must_hold(dict(r) == stub, "length-stub", case, detail="over-long response became %r, expected %r" % (dict(r), stub))
+            else:
+                en.must_hold(dict(r) == full, "length-stub", case, detail="response within the limit was altered: %r" % (dict(r),))
         else:
-            en.must_hold(dict(r) == full, "length-stub", case, detail="response within the limit was altered: %r" % (dict(r),))
+            # details whose text form and serialised form differ: the statement does not fix the size measure, so only what every
+            # measure must satisfy is required: either the full response, or a stub of type, key and a length above the limit
+            got = dict(r)
+            if "max_detail_length_error" in got:
+                L = got["max_detail_length_error"]
+                shape = set(got) == set(["type", "max_detail_length_error"] + ([kn] if kn else [])) and got["type"] == full["type"] and (not kn or got[kn] == full[kn])
+                en.must_hold(shape and isinstance(L, int), "length-stub", case, detail="stub %r keeps more / less than type, key and length" % (got,))
+                if shape and isinstance(L, int):
+                    en.must_hold(limit < L, "length-stub", case, detail="a stub reports length %d which does not exceed the limit" % L)
+            else:
+                en.must_hold(got == full, "length-stub", case, detail="response was altered: %r" % (got,))
+                en.must_hold(core.sint(limit) >= min_size(payload), "length-stub", case, detail="a response whose details alone have %d characters passed a smaller limit" % min_size(payload))
     return o2
 
 
@@ -426,6 +454,16 @@ def _native(case):
             return ["valid response rejected: %r" % (err,)]
         full = exp[1]
         length = len(str(full))
+        if case["cls"] != "make_metadata_key" and not isinstance(case["payload"], int):
+            got, kn = dict(r), KEYNAME[case["cls"]]
+            if "max_detail_length_error" in got:
+                L = got["max_detail_length_error"]
+                if set(got) != set(["type", "max_detail_length_error"] + ([kn] if kn else [])) or got["type"] != full["type"] or (kn and got[kn] != full[kn]) or not isinstance(L, int):
+                    return ["stub %r keeps more / less than type, key and length" % (got,)]
+                return [] if L > case["limit"] else ["a stub reports length %d which does not exceed the limit %d" % (L, case["limit"])]
+            if got != full:
+                return ["response altered: %r expected %r" % (got, full)]
+            return [] if case["limit"] >= min_size(case["payload"]) else ["a response whose details alone have %d characters passed the limit %d" % (min_size(case["payload"]), case["limit"])]
         if case["cls"] != "make_metadata_key" and length > case["limit"]:
             kn = KEYNAME[case["cls"]]
             stub = {"type": full["type"], "max_detail_length_error": length}
